@@ -169,6 +169,9 @@ class AvroJSONDecoder:
             for key in self._current:
                 break
             yield
+            # A value that ends in nested records still has their closing
+            # actions pending; run them so that this pop finds the map again
+            self._parser.run_pending_actions()
             self._pop()
             del self._current[key]
 
